@@ -101,7 +101,7 @@ pub enum Op {
     Entry { ty: u64, serial: u64, payload: u64 },
     Has { kty: u64, dynid: u64 },
     GetMut { kty: u64, dynid: u64 },
-    Fetch { fk: u64, ty: u64, kty: u64, dynid: u64 },
+    Fetch { fk: u64, ty: u64, kty: u64, dynid: u64, unw: bool },
     Clone { g: u64 },
     Drop { g: u64 },
     Read { g: u64 },
@@ -115,7 +115,7 @@ pub fn op_text(o: &Op) -> String {
         Op::Entry { ty, serial, payload } => format!("E {} {} {}", ty, serial, payload),
         Op::Has { kty, dynid } => format!("H {} {}", kty, dynid),
         Op::GetMut { kty, dynid } => format!("M {} {}", kty, dynid),
-        Op::Fetch { fk, ty, kty, dynid } => format!("F {} {} {} {}", fk, ty, kty, dynid),
+        Op::Fetch { fk, ty, kty, dynid, unw } => format!("{} {} {} {} {}", if *unw { "Fu" } else { "F" }, fk, ty, kty, dynid),
         Op::Clone { g } => format!("C {}", g),
         Op::Drop { g } => format!("D {}", g),
         Op::Read { g } => format!("R {}", g),
@@ -136,7 +136,8 @@ pub fn parse_ops(s: &str) -> Vec<Op> {
             "E" => Op::Entry { ty: n(1), serial: n(2), payload: n(3) },
             "H" => Op::Has { kty: n(1), dynid: n(2) },
             "M" => Op::GetMut { kty: n(1), dynid: n(2) },
-            "F" => Op::Fetch { fk: n(1), ty: n(2), kty: n(3), dynid: n(4) },
+            "F" => Op::Fetch { fk: n(1), ty: n(2), kty: n(3), dynid: n(4), unw: false },
+            "Fu" => Op::Fetch { fk: n(1), ty: n(2), kty: n(3), dynid: n(4), unw: true },
             "C" => Op::Clone { g: n(1) },
             "D" => Op::Drop { g: n(1) },
             "R" => Op::Read { g: n(1) },
@@ -260,18 +261,27 @@ pub fn observe(ops: &[Op]) -> String {
                     match r { Ok(Some((t, p))) => format!("v{}.{}", t, p), Ok(None) => "n".into(), Err(p) => panic_kind(&p).into() }
                 }
             }
-            Op::Fetch { fk, ty, kty, dynid } => {
+            Op::Fetch { fk, ty, kty, dynid, unw } => {
                 let id = rid(*kty, *dynid);
-                let r: Result<Option<Box<dyn GuardObj>>, _> = catch_unwind(AssertUnwindSafe(|| with_ty!(*ty, T => {
+                let mut do_fetch = || -> Result<Option<Box<dyn GuardObj>>, Box<dyn std::any::Any + Send>> { catch_unwind(AssertUnwindSafe(|| with_ty!(*ty, T => {
                     match fk {
                         0 => Some(Box::new(shared.fetch::<T>()) as Box<dyn GuardObj>),
                         1 => shared.try_fetch::<T>().map(|g| Box::new(g) as Box<dyn GuardObj>),
-                        2 => shared.try_fetch_by_id::<T>(id).map(|g| Box::new(g) as Box<dyn GuardObj>),
+                        2 => shared.try_fetch_by_id::<T>(id.clone()).map(|g| Box::new(g) as Box<dyn GuardObj>),
                         3 => Some(Box::new(shared.fetch_mut::<T>()) as Box<dyn GuardObj>),
                         4 => shared.try_fetch_mut::<T>().map(|g| Box::new(g) as Box<dyn GuardObj>),
-                        _ => shared.try_fetch_mut_by_id::<T>(id).map(|g| Box::new(g) as Box<dyn GuardObj>),
+                        _ => shared.try_fetch_mut_by_id::<T>(id.clone()).map(|g| Box::new(g) as Box<dyn GuardObj>),
                     }
-                })));
+                }))) };
+                // `unw`: the very same fetch made from a destructor while the thread is UNWINDING from another panic: its
+                // outcome (guard / None / which panic) must be the same as at any other time
+                let r = if *unw {
+                    struct OnDrop<F: FnMut()>(F);
+                    impl<F: FnMut()> Drop for OnDrop<F> { fn drop(&mut self) { (self.0)() } }
+                    let mut res = None;
+                    let _ = catch_unwind(AssertUnwindSafe(|| { let _d = OnDrop(|| { res = Some(do_fetch()); }); panic!("unwinding"); }));
+                    res.unwrap_or_else(|| Ok(None))
+                } else { do_fetch() };
                 match r {
                     Ok(Some(obj)) => { let g = next_g; next_g += 1; guards.push(G { id: g, key: (*kty, *dynid), obj }); format!("g{}", g) }
                     Ok(None) => "n".into(),
@@ -358,7 +368,7 @@ pub fn gen_history(rng: &mut Rng, max_len: u64, malformed: bool) -> Vec<Op> {
             let fk = rng.below(6);
             let by_id = fk == 2 || fk == 5;
             let (ty, dynid) = if by_id { (ty, dynid) } else { (kty, 0) };
-            Op::Fetch { fk, ty, kty, dynid }
+            Op::Fetch { fk, ty, kty, dynid, unw: rng.chance(1, 8) }
         } else if choice < 70 && !live.is_empty() {
             Op::Clone { g: live[rng.below(live.len() as u64) as usize] }
         } else if choice < 86 && !live.is_empty() {
@@ -377,7 +387,7 @@ pub fn gen_history(rng: &mut Rng, max_len: u64, malformed: bool) -> Vec<Op> {
             Op::Insert { ty, kty, dynid, .. } => if live.is_empty() && ty == kty && !present.contains(&(*kty, *dynid)) { present.push((*kty, *dynid)); },
             Op::Remove { ty, kty, dynid } => if live.is_empty() && ty == kty { present.retain(|k| *k != (*kty, *dynid)); },
             Op::Entry { ty, .. } => if live.is_empty() && !present.contains(&(*ty, 0)) { present.push((*ty, 0)); },
-            Op::Fetch { fk, ty, kty, dynid } => {
+            Op::Fetch { fk, ty, kty, dynid, .. } => {
                 let k = (*kty, *dynid);
                 if ty == kty && present.contains(&k) {
                     let excl = *fk >= 3;
@@ -404,15 +414,15 @@ pub fn exhaustive_menu() -> Vec<Op> {
         Op::Insert { ty: 0, kty: 0, dynid: 0, serial: 0, payload: 5 },
         Op::Insert { ty: 0, kty: 0, dynid: 1, serial: 0, payload: 6 },
         Op::Remove { ty: 0, kty: 0, dynid: 0 },
-        Op::Fetch { fk: 1, ty: 0, kty: 0, dynid: 0 },
-        Op::Fetch { fk: 4, ty: 0, kty: 0, dynid: 0 },
-        Op::Fetch { fk: 2, ty: 0, kty: 0, dynid: 1 },
-        Op::Fetch { fk: 5, ty: 0, kty: 0, dynid: 1 },
+        Op::Fetch { fk: 1, ty: 0, kty: 0, dynid: 0, unw: false },
+        Op::Fetch { fk: 4, ty: 0, kty: 0, dynid: 0, unw: false },
+        Op::Fetch { fk: 2, ty: 0, kty: 0, dynid: 1, unw: false },
+        Op::Fetch { fk: 5, ty: 0, kty: 0, dynid: 1, unw: false },
         Op::Clone { g: 0 },
         Op::Drop { g: 0 },
         Op::Drop { g: 1 },
         Op::Write { g: 0, p: 9 },
-        Op::Fetch { fk: 5, ty: 1, kty: 0, dynid: 1 },
+        Op::Fetch { fk: 5, ty: 1, kty: 0, dynid: 1, unw: false },
     ]
 }
 pub fn exhaustive_size() -> u64 { let m = exhaustive_menu().len() as u64; m + m * m + m * m * m + m * m * m * m }
